@@ -110,6 +110,24 @@ def _eval_cond(n, roles, rel):
                     r2[("val", p_["did"])] = ra
             return _eval_cond(gs[0]["c"][0], r2, rel)
         raise Unclassifiable("helper " + n["callee"].split("::")[-1] + " is not a single return expression")
+    if k == "CXXOperatorCallExpr" and n.get("oop") == "()" and roles.get("__depth__", 0) < 2:
+        # a local lambda used as helper predicate: its body is local alias declarations and one return expression
+        t = astq.strip(n["c"][1]) if len(n.get("c") or []) > 1 else None
+        lam = (roles.get("__lambdas__") or {}).get(t["ref"]["did"]) if t is not None and t.get("k") == "DeclRefExpr" else None
+        if lam is not None:
+            lb = lam["lambda"]["body"]
+            gs = [st for st in (lb.get("c") or []) if st.get("k") != "NullStmt"]
+            decls = [st for st in gs if st.get("k") == "DeclStmt"]
+            rets = [st for st in gs if st.get("k") == "ReturnStmt"]
+            if len(rets) == 1 and len(decls) + 1 == len(gs) and gs[-1] is rets[0] and rets[0].get("c"):
+                r2 = {"__funcs__": roles.get("__funcs__") or {}, "__depth__": roles.get("__depth__", 0) + 1, "__lambdas__": roles.get("__lambdas__") or {}}
+                r2["__locals__"] = {d["did"]: d["init"] for st in decls for d in st["decls"] if d.get("init") is not None}
+                for p_, a_ in zip(lam["lambda"].get("params") or [], n["c"][2:]):
+                    ra = _role_of(a_, roles)
+                    if ra:
+                        r2[("val", p_["did"])] = ra
+                return _eval_cond(rets[0]["c"][0], r2, rel)
+            raise Unclassifiable("local lambda helper is not `aliases; return <expression>;`")
     if k == "CXXMemberCallExpr" and (n.get("callee") or "").endswith("::count"):
         member = _member(n, roles)
         if member and member[1]:
@@ -203,6 +221,8 @@ def order_table(fn, funcs_by_name=None, swap=False, depth=0):
         init = None         # no result flag: the function answers by returns only (compared with the documented table as such)
     roles["__funcs__"] = funcs_by_name or {}
     roles["__locals__"] = {d["did"]: d["init"] for n in astq.walk(loop["body"]) if n.get("k") == "DeclStmt" for d in n["decls"] if d.get("init") is not None}
+    roles["__lambdas__"] = {d["did"]: astq.strip(d["init"]) for s_ in stmts if s_.get("k") == "DeclStmt" for d in s_["decls"]
+                            if d.get("init") is not None and (astq.strip(d["init"]) or {}).get("k") == "LambdaExpr"}
     # the loop must advance both iterators together
     inc = loop.get("inc")
     adv = set()
